@@ -514,6 +514,15 @@ func (c *ChannelArbitrator) progressStateMachineAfterRestart(bestHeight int32,
 		case StateBroadcastCommit:
 			fallthrough
 		case StateCommitmentBroadcasted:
+			fallthrough
+
+		// If we went down right after committing StateContractClosed,
+		// that state is re-run below. It derives the chain actions,
+		// and with them the htlc resolvers and the upstream fail
+		// backs, from the trigger, so it needs the close trigger as
+		// well: for a plain chain trigger only htlcs close to expiry
+		// yield actions and all others would be left unresolved.
+		case StateContractClosed:
 			switch c.cfg.CloseType {
 
 			case channeldb.CooperativeClose:
